@@ -20,8 +20,8 @@ let show_row blocks removed np_rows c =
     (match r.ph with
      | PNone -> Printf.sprintf "p%d=N;pi=%s" c (show_pi removed r)
      | PHs -> Printf.sprintf "p%d=H:dl%d,pe%d;pi=%s" c (b2i r.dlb) (b2i r.pe) (show_pi removed r)
-     | PConn -> Printf.sprintf "p%d=C:pe%d,ui%d,uu%d,di%d,du%d,px%d,tu%d,td%d,uc%d,dc%d,tr%s;pi=%s" c
-                  (b2i r.pe) (b2i r.ui) (b2i r.uu) (b2i r.di) (b2i r.du) (b2i r.px) (b2i r.tu) (b2i r.td)
+     | PConn -> Printf.sprintf "p%d=C:pe%d,ui%d,uu%d,us%d,di%d,du%d,px%d,tu%d,td%d,uc%d,dc%d,tr%s;pi=%s" c
+                  (b2i r.pe) (b2i r.ui) (b2i r.uu) (b2i r.us) (b2i r.di) (b2i r.du) (b2i r.px) (b2i r.tu) (b2i r.td)
                   (b2i r.uc) (b2i r.dc) (string_of_z (tr_count r)) (show_pi removed r))
 
 let show_glob removed s =
@@ -30,11 +30,11 @@ let show_glob removed s =
   let bf = fin_leaders s.blocks (-1) in
   let tl = List.length pieces and bt = int_of_z (bt_count s.blocks) - bf in
   if removed then
-    Printf.sprintf "G:cn0,hs%d,uu0,du0,geu0/0,ged0/0,px0,cr0,cw0,cb0,tl0,bt0,bf0,cqu%d/%d,cqd%d/%d,rm%d/%d,tu%d,td%d,sk%d"
+    Printf.sprintf "G:cn0,hs%d,uu0,du0,geu0/0,ged0/0,px0,cr0,cw0,cb0,tl0,bt0,bf0,hq0,cqu%d/%d,cqd%d/%d,rm%d/%d,tu%d,td%d,sk%d"
       v.(1) v.(4) v.(7) v.(10) v.(13) v.(5) v.(11) v.(15) v.(16) v.(18)
   else
-    Printf.sprintf "G:cn%d,hs%d,uu%d,du%d,geu%d/%d,ged%d/%d,px%d,cr%d,cw%d,cb0,tl%d,bt%d,bf%d,cqu%d/%d,cqd%d/%d,rm%d/%d,tu%d,td%d,sk%d"
-      v.(0) v.(1) v.(2) v.(8) v.(3) v.(6) v.(9) v.(12) v.(14) v.(17) v.(19) tl bt bf v.(4) v.(7) v.(10) v.(13) v.(5) v.(11) v.(15) v.(16) v.(18)
+    Printf.sprintf "G:cn%d,hs%d,uu%d,du%d,geu%d/%d,ged%d/%d,px%d,cr%d,cw%d,cb%d,tl%d,bt%d,bf%d,hq%d,cqu%d/%d,cqd%d/%d,rm%d/%d,tu%d,td%d,sk%d"
+      v.(0) v.(1) v.(2) v.(8) v.(3) v.(6) v.(9) v.(12) v.(14) v.(17) v.(19) (List.length s.hq) tl bt bf (List.length s.hq) v.(4) v.(7) v.(10) v.(13) v.(5) v.(11) v.(15) v.(16) v.(18)
 
 let ledger removed np s =
   let rs = List.init np (fun c -> show_row s.blocks removed s.rows c) in
@@ -88,10 +88,14 @@ let ops_of_token np tok : op list =
        | _ -> [])
   | 'A' -> if tok = "A:ptick" then PexTick :: List.init np (fun c -> PexEnable (nat c))
            else if tok = "A:max:1" then [SetMax (z_of_int 1)]
+           else if tok = "A:sockmax" then [SockLimit true]
+           else if List.length f = 2 && List.nth f 1 = "snub" then [Snub (nat (peer_of hd))]
+           else if List.length f = 2 && List.nth f 1 = "unsnub" then [Unsnub (nat (peer_of hd))]
            else if String.length tok > 9 && String.sub tok 0 9 = "A:maxpex:" then
              [SetMaxPex (z_of_string (String.sub tok 9 (String.length tok - 9)))]
            else []
   | 'D' -> [HashDone (n_of_string (List.nth f 1))]
+  | 'Q' -> [HashQueued (n_of_string (List.nth f 1))]
   | 'E' -> [Abort (nat (peer_of hd))]
   | 'V' -> []
   | _ -> failwith ("token " ^ tok)
